@@ -147,6 +147,36 @@ def _model_job(a):
                 i = int(np.argmax(err / tol))
                 bad.append(("totals:vs_fd:%s:%s" % (o.split(".")[-1], name.split(".")[-1]), {"of": o, "wrt": name, "analytic_directional": float(jd.ravel()[i]), "fd": float(fr.ravel()[i]), "fd_uncertainty": float(u.ravel()[i]), "tol": float(tol.ravel()[i])}))
     m.prob.run_model()
+    # a second design point on the live model (Mach number across the wave-drag onset, everything else moved by a few
+    # per cent): its totals must be those of a freshly built model analysed at that point only
+    try:
+        fresh = cfgmodels.build(cfg, sd, mode=ref[1][0], lin="Direct")
+        rng2 = np.random.default_rng(sd + 11)
+        for name in m.wrt:
+            v = np.array(m.prob.get_val(name), dtype=float)
+            last = name.split(".")[-1]
+            if last.startswith("Mach_number"):
+                v2 = np.where(v > 0.7, 0.45, 0.86) if not cfg.get("compressible") else v * 0.9
+            elif last in ("alpha", "alpha_0", "alpha_1", "twist_cp", "v", "v_0", "v_1", "rho", "rho_0", "rho_1", "thickness_cp", "spar_thickness_cp", "skin_thickness_cp", "loads"):
+                v2 = v * (1.0 + 0.04 * rng2.uniform(0.5, 1.0))
+            else:
+                continue
+            for mm in (m, fresh):
+                mm.prob.set_val(name, v2)
+        m.run()
+        fresh.run()
+        ok2 = all(float(np.ravel(mm.prob.get_val(pn + ".CL"))[0]) > 0.05 for mm in (m, fresh) for pn in getattr(mm, "points", []))
+        if ok2:
+            J1 = m.prob.compute_totals(of=m.of, wrt=m.wrt, return_format="flat_dict")
+            J2 = fresh.prob.compute_totals(of=m.of, wrt=m.wrt, return_format="flat_dict")
+            for kk in J2:
+                S = max(float(np.max(np.abs(np.asarray(w)))) for k2, w in J2.items() if k2[0] == kk[0])
+                e = float(np.max(np.abs(np.asarray(J1[kk]) - np.asarray(J2[kk]))))
+                if e > 1e-7 * max(float(np.max(np.abs(np.asarray(J2[kk])))), 1e-300) + 1e-9 * S:
+                    bad.append(("totals:second_point_vs_fresh:%s:%s" % (kk[0].split(".")[-1], kk[1].split(".")[-1]), {"of": kk[0], "wrt": kk[1], "err": e, "scale": float(np.max(np.abs(np.asarray(J2[kk]))))}))
+                    break
+    except om.AnalysisError:
+        inconclusive.append(("second_point", "-", "solver did not converge at the second point"))
     # measured symmetry of the assembled stiffness matrix (assumption symK of OASAdjoint)
     symK = None
     try:
